@@ -29,6 +29,8 @@ else:
         sys.exit(rc)
 # bounded stand-ins: (directory, argv for quick, argv for thorough, what it stands in for)
 BOUNDED = {
+ 'C01': [('bounded/axes', [], [],
+          'principal node type of `*` and name tests (XPath 1.0 section 2.3) on the self-including axes from attribute and namespace context nodes: 25 fixed probes.  The Sem specification takes the node tests over from the code (a named node passes `*` on every axis), so this part of C01 is not decided by the proof; the probe records it')],
  'C07': [('bounded/strings', ['-n', '3'], ['-n', '4'],
           'substring / normalize-space / translate / string-length through the real Exec on every string up to N characters over an alphabet with ASCII, XML and non-XML white space, 2-, 3- and 4-byte and combining characters, and every position/length from a grid with fractions, negatives, NaN and infinities, compared with an independent character-level oracle; results checked for UTF-8 validity')],
  'C08': [('bounded/parse', ['-n', '2', '-sample', '1500'], ['-n', '3', '-sample', '6000'],
